@@ -97,6 +97,14 @@ func ReconcileEvents(w *world.World) []world.Event {
 			evs = append(evs, world.Event{Name: "reconcile:phase:" + k.Name, Apply: func(w *world.World) *world.Pass {
 				return w.Reconcile(world.CtrlPhase, NN(k.Name), nil)
 			}})
+		case k.Group == "package-operator.run" && k.Kind == "Package" && w.Pkg != nil:
+			evs = append(evs, world.Event{Name: "reconcile:pkg:" + k.Name, Apply: func(w *world.World) *world.Pass {
+				return w.Reconcile(world.CtrlPackage, NN(k.Name), nil)
+			}})
+		case k.Group == "package-operator.run" && k.Kind == "ObjectTemplate":
+			evs = append(evs, world.Event{Name: "reconcile:template:" + k.Name, Apply: func(w *world.World) *world.Pass {
+				return w.Reconcile(world.CtrlObjectTemplate, NN(k.Name), nil)
+			}})
 		case k.Group == "package-operator.run" && k.Kind == "ObjectDeployment":
 			evs = append(evs, world.Event{Name: "reconcile:od:" + k.Name, Apply: func(w *world.World) *world.Pass {
 				return w.Reconcile(world.CtrlObjectDeployment, NN(k.Name), nil)
@@ -653,4 +661,37 @@ func TemplateOf(c map[string]any) string {
 		}
 	}
 	return kmodel.Digest(pick)
+}
+
+// PassSpec names one reconcile pass (controller kind + object name) of a fair round.
+type PassSpec struct {
+	Ctrl string
+	Name string
+}
+
+// RoundPasses lists the passes of one fair round for the current state, in canonical order.
+func RoundPasses(w *world.World) []PassSpec {
+	var out []PassSpec
+	for _, k := range w.S.SortedKeys() {
+		if k.Group != "package-operator.run" {
+			continue
+		}
+		switch k.Kind {
+		case "Package":
+			if w.Pkg != nil {
+				out = append(out, PassSpec{world.CtrlPackage, k.Name})
+			}
+		case "ObjectDeployment":
+			out = append(out, PassSpec{world.CtrlObjectDeployment, k.Name})
+		case "ObjectSet":
+			out = append(out, PassSpec{world.CtrlObjectSet, k.Name})
+		case "ObjectSetPhase":
+			if kmodel.Labels(w.S.Objs[k].Content)[corev1alpha1.ObjectSetPhaseClassLabel] == world.PhaseClass {
+				out = append(out, PassSpec{world.CtrlPhase, k.Name})
+			}
+		case "ObjectTemplate":
+			out = append(out, PassSpec{world.CtrlObjectTemplate, k.Name})
+		}
+	}
+	return out
 }
